@@ -96,9 +96,21 @@ MOVERS = ("transfer", "push", "refund", "finishVoting", "terminate", "pay", "pay
 def sample_sandwiches(exports, rnd, budget):
     """sandwich blocks: per (lifecycle state, block shape) the operations that move coins and are expected to succeed
     first; states x shapes are visited in seeded random order, best candidates first"""
+    def good(last):
+        # (addStake of an oracle voting succeeds in every lifecycle state - it moves the pay amount into the contract stake without
+        # changing the lifecycle, so the model's progress flag does not show it)
+        return last["good"] or (last["m"] == "addStake" and last["amt"] in ("some", "big") and last["arg"] == "valid")
+
     def rank(e):
         last = e["path"][-1]
-        return (not (last["good"] and last["m"] in MOVERS), last["m"] not in MOVERS, not last["good"], last["arg"] != "valid")
+        return (not (good(last) and last["m"] in MOVERS), last["m"] not in MOVERS, not good(last), last["arg"] != "valid")
+    # every method that moves coins, of every contract, at least once in each of the key block shapes (in its best-ranked state)
+    KEY_SHAPES = ("sw-none-again", "sw-cin-emb", "sw-self-emb", "sw-xout-two", "sw-cin-again")
+    must = {}
+    for e in sorted(exports, key=lambda e: (rank(e), len(e["path"]), json.dumps(e, sort_keys=True))):
+        last = e["path"][-1]
+        if last["m"] in MOVERS and good(last) and last["pair"] in KEY_SHAPES:
+            must.setdefault((e["c"], last["m"], last["pair"]), e)
     groups = collections.defaultdict(list)
     for e in exports:
         groups[(e["c"], e["w"], json.dumps(e["path"][:-1]), e["path"][-1]["pair"])].append(e)
@@ -107,7 +119,7 @@ def sample_sandwiches(exports, rnd, budget):
     for k in keys:
         rnd.shuffle(groups[k])
         groups[k].sort(key=rank)
-    res, i = [], 0
+    res, i = [must[k] for k in sorted(must)], 0
     while len(res) < budget and keys:
         # within a pass the groups whose candidate is better come first
         keys = [k for k in keys if i < len(groups[k])]
